@@ -34,7 +34,7 @@ import pipetrace
 import pool
 import c10
 
-JOBS = min(common.NCPU, 5)
+JOBS = min(common.NCPU, 4)
 CLI = os.path.join(os.path.dirname(os.path.dirname(os.path.abspath(__file__))), "cli_run.py")
 EXTRA_IDS = ["POP", "SWAP1", "DUP1", "NOP", "ADD"]
 
@@ -401,7 +401,7 @@ def run(tier):
     # (V)
     classes, rv_st = judge_outcomes(outcomes)
     t_rv = time.time() - t0
-    tverd, tends, tst = pipetrace.run_traces(tcases, jobs=JOBS, tag="c11trace")
+    tverd, tends, tst = pipetrace.run_traces(tcases, jobs=2 if tier == "quick" else JOBS, tag="c11trace")
     t_trace = time.time() - t0
     taken = set()
     for e in tends.values():
